@@ -200,6 +200,18 @@ func checkC19(c *hx.Ctx) {
 			for k := 0; k < np; k++ {
 				rm.PublishedOperations = append(rm.PublishedOperations, &operation.AnchoredOperation{Type: "update", UniqueSuffix: "s", OperationRequest: []byte("{}"), TransactionTime: uint64(k), CanonicalReference: fmt.Sprint("r", k)})
 			}
+			if incPub && np >= 2 && rr.Chance(1, 3) {
+				// the same published operations handed over twice (e.g. from the store and as additional operations), all anchored
+				// in one transaction so that sorting does not put the copies next to each other: each is reported once
+				for _, o := range rm.PublishedOperations {
+					o.TransactionTime, o.TransactionNumber = 7, 1
+				}
+				for k := 0; k < np; k++ {
+					cp := *rm.PublishedOperations[k]
+					rm.PublishedOperations = append(rm.PublishedOperations, &cp)
+				}
+				c.Count("models_with_repeated_published_operations")
+			}
 			for k := 0; k < nu; k++ {
 				rm.UnpublishedOperations = append(rm.UnpublishedOperations, &operation.AnchoredOperation{Type: "update", UniqueSuffix: "s", OperationRequest: []byte("{}"), TransactionTime: uint64(100 + k)})
 			}
@@ -234,7 +246,11 @@ func checkC19(c *hx.Ctx) {
 					exp := h
 					exp.nPub, exp.nUnpub = 0, 0
 					if incPub {
-						exp.nPub = len(rm.PublishedOperations)
+						refs := map[string]bool{}
+						for _, o := range rm.PublishedOperations {
+							refs[o.CanonicalReference] = true
+						}
+						exp.nPub = len(refs)
 					}
 					if incUnpub {
 						exp.nUnpub = len(rm.UnpublishedOperations)
@@ -338,24 +354,47 @@ func checkC19(c *hx.Ctx) {
 			H = append(H, Place(b.Desc, 5000, 1, "crefD", 0))
 		}
 		store := hx.NewOpStore()
-		store.Set(d.Suffix, ToAnchored(d.Suffix, H))
+		anch := ToAnchored(d.Suffix, H)
+		withEq := i%2 == 0
+		if withEq {
+			// the ledger knows equivalent locations of every transaction
+			for k, a := range anch {
+				a.EquivalentReferences = []string{fmt.Sprintf("eq%da", k), fmt.Sprintf("eq%db", k)}
+			}
+		}
+		store.Set(d.Suffix, anch)
 		dh := dochandler.New(hx.Namespace, nil, pc, &hx.RecWriter{}, processor.New("verif", store, pc), hx.NopMetrics{})
 		did := hx.Namespace + ":" + d.Suffix
-		c.Eval()
-		res, err := dh.ResolveDocument(did)
 		st, merr := ref.Resolve(H, ref.ResolveOpts{})
 		replay := map[string]interface{}{"history": replayOps(H), "did": did}
-		if err != nil || merr != nil {
-			c.Violation(fmt.Sprintf("C19 ResolveDocument failed (err=%v, model err=%v)", err, merr), replay)
-			return
+		canonical := ""
+		var eqIDs []interface{}
+		if merr == nil {
+			canonical = hx.Namespace + ":" + st.CanonicalRef + ":" + d.Suffix
+			eqIDs = []interface{}{canonical}
+			if withEq {
+				eqIDs = append(eqIDs, hx.Namespace+":eq0a:"+d.Suffix, hx.Namespace+":eq0b:"+d.Suffix) // those of the create (no recover in these histories)
+			}
 		}
-		canonical := hx.Namespace + ":" + st.CanonicalRef + ":" + d.Suffix
-		mi := ref.MetaIn{UpdateCommitment: st.UpdateCommitment, RecoveryCommitment: st.RecoveryCommitment, AnchorOrigin: st.AnchorOrigin, Deactivated: st.Deactivated,
-			Published: true, VersionID: st.VersionID, CreatedTime: st.CreatedTime, UpdatedTime: st.UpdatedTime, CanonicalID: canonical, EquivalentID: []interface{}{canonical}}
-		if why := compareProjection(res, ref.NormalizeDoc(st.Doc), did, o, mi, 0, 0); why != "" && why[:5] != "skip:" {
-			replay["result"] = roundTrip(res)
-			c.Violation("C19 DocumentHandler.ResolveDocument: "+why, replay)
-			return
+		// the same DID is resolved three times through the same handler and store (the store hands out the operations it holds):
+		// every resolution must give the same, correct result
+		for round := 0; round < 3; round++ {
+			c.Eval()
+			res, err := dh.ResolveDocument(did)
+			if err != nil || merr != nil {
+				c.Violation(fmt.Sprintf("C19 ResolveDocument failed (err=%v, model err=%v, resolution #%d)", err, merr, round+1), replay)
+				return
+			}
+			mi := ref.MetaIn{UpdateCommitment: st.UpdateCommitment, RecoveryCommitment: st.RecoveryCommitment, AnchorOrigin: st.AnchorOrigin, Deactivated: st.Deactivated,
+				Published: true, VersionID: st.VersionID, CreatedTime: st.CreatedTime, UpdatedTime: st.UpdatedTime, CanonicalID: canonical, EquivalentID: eqIDs}
+			if why := compareProjection(res, ref.NormalizeDoc(st.Doc), did, o, mi, 0, 0); why != "" && why[:5] != "skip:" {
+				replay["result"] = roundTrip(res)
+				c.Violation(fmt.Sprintf("C19 DocumentHandler.ResolveDocument (resolution #%d of the same DID): %s", round+1, why), replay)
+				return
+			}
+		}
+		if withEq {
+			c.Count("resolved_through_handler_with_equivalent_references")
 		}
 		c.Count("resolved_through_handler")
 	})
@@ -366,5 +405,7 @@ func checkC19(c *hx.Ctx) {
 	c.Floor("material:jwk", 100)
 	c.Floor("rechecked_after_later_calls", 1000)
 	c.Floor("resolved_through_handler", 50)
+	c.Floor("models_with_repeated_published_operations", 20)
+	c.Floor("resolved_through_handler_with_equivalent_references", 20)
 	c.Floor("same_model_transformed_repeatedly", 100)
 }
